@@ -63,6 +63,7 @@ struct RoundSpec {
   bool raw_node;       // Builder: one instruction node is created through new_inst_node() without operands
   bool holder_logger;  // the logger is attached to the holder instead of the emitter
   bool annotate;       // Compiler with a logger: DiagnosticOptions::kRAAnnotate
+  bool win;            // the environment's platform is Windows (x86-64: cdecl resolves to the Win64 convention), else the host's
   int dangling;        // 0 none; 1..7: one-shot state (options / extra register / inline comment) is set after the round and never consumed
 };
 
@@ -82,8 +83,15 @@ RoundSpec decode(const Op& op) {
   s.holder_logger = (f >> 21) & 1;
   s.raw_node = (f >> 22) & 1;
   s.explicit_serialize = (f >> 23) & 1;
+  s.win = (f >> 24) & 1;
   if (s.mode == 2 && s.emitter_kind != kAsm) s.mode = 0;
   return s;
+}
+
+static Environment env_of(const RoundSpec& s) {
+  Environment env(gen::arch_of(s.target));
+  if (s.win) env.set_platform(Platform::kWindows);
+  return env;
 }
 
 gen::Program make_program(const RoundSpec& s) {
@@ -244,7 +252,7 @@ std::string fresh_reference(const RoundSpec& s_in, const Knobs& fresh_knobs, uin
   std::string snap;
   {
     Objects o(0);
-    Error err = o.code->init(Environment(gen::arch_of(s.target)));
+    Error err = o.code->init(env_of(s));
     SIM_CHECK(err == Error::kOk, "c16:setup", "fresh CodeHolder::init failed: %u", unsigned(err));
     BaseEmitter& e = o.emitter(s.target, s.emitter_kind == kCompilerVirt ? kCompilerPhys : s.emitter_kind);
     RoundSpec fs = s; fs.logger = fresh_logger; fs.validate = fresh_validate;
@@ -267,6 +275,7 @@ void execute_rounds(const Plan& plan) {
   {
     Objects o(size_t(plan.get("static", 0)));
     gen::Target cur_target = gen::Target::kX64;
+    bool cur_win = false;
     bool initialized = false;
 
     for (size_t i = 0; i < plan.ops.size(); i++) {
@@ -277,7 +286,7 @@ void execute_rounds(const Plan& plan) {
       RoundSpec s = decode(op);
       int recycle = int((uint64_t(op.a[3]) >> 12) % kRecycleCount);
       if (!initialized) recycle = kNone;
-      if (recycle == kReinit) s.target = cur_target;   // reinit keeps the environment
+      if (recycle == kReinit) { s.target = cur_target; s.win = cur_win; }   // reinit keeps the environment
 
       // ---- recycle ------------------------------------------------------------------------------------------
       CodeHolder& code = *o.code;
@@ -289,9 +298,9 @@ void execute_rounds(const Plan& plan) {
           SIM_CHECK(!o.xa.is_initialized() && !o.xb.is_initialized() && !o.xc.is_initialized() && !o.aa.is_initialized() && !o.ab.is_initialized() && !o.ac.is_initialized(), "c16:reset", "an emitter still claims to be attached after reset()");
           check_pristine_compiler(o.xc, "after reset()"); check_pristine_compiler(o.ac, "after reset()");
         }
-        Error err = code.init(Environment(gen::arch_of(s.target)));
+        Error err = code.init(env_of(s));
         if (err != Error::kOk) { SIM_CHECK(sim::run_faults_fired_total() > 0, "c16:init-failed", "init() failed with %u", unsigned(err)); sim::end_op(); initialized = false; continue; }
-        initialized = true; cur_target = s.target;
+        initialized = true; cur_target = s.target; cur_win = s.win;
         check_pristine_holder(code, "after reset()+init()");
       }
       else if (recycle == kReinit) {
@@ -309,9 +318,9 @@ void execute_rounds(const Plan& plan) {
         // No recycle on an initialised holder: outputs would accumulate, so this round is generation on top of an
         // unknown state and is not compared; make it a reset(soft) instead.
         code.reset(ResetPolicy::kSoft);
-        Error err = code.init(Environment(gen::arch_of(s.target)));
+        Error err = code.init(env_of(s));
         if (err != Error::kOk) { initialized = false; sim::end_op(); continue; }
-        cur_target = s.target;
+        cur_target = s.target; cur_win = s.win;
       }
       sim::logf("round %zu recycle=%d target=%s emitter=%d mode=%d steps=%zu funcs=%u", i, recycle, gen::target_name(s.target), s.emitter_kind, s.mode, s.prog_steps, s.nfuncs);
 
@@ -450,7 +459,7 @@ void execute_funcs(const Plan& plan) {
   std::vector<std::vector<uint8_t>> together;
   {
     Objects o(0);
-    SIM_CHECK(o.code->init(Environment(gen::arch_of(s.target))) == Error::kOk, "c16:setup", "init failed");
+    SIM_CHECK(o.code->init(env_of(s)) == Error::kOk, "c16:setup", "init failed");
     BaseEmitter& e = o.emitter(s.target, kCompilerPhys);
     setup_emitter(*o.code, e, s, &o.logger, &o.eh);
     SIM_CHECK(o.code->attach(&e) == Error::kOk, "c16:setup", "attach failed");
@@ -469,7 +478,7 @@ void execute_funcs(const Plan& plan) {
     apply_knobs(i & 1 ? k2 : k1, plan.seed + i);
     sim::begin_op(Op(), i + 1);
     Objects o(0);
-    SIM_CHECK(o.code->init(Environment(gen::arch_of(s.target))) == Error::kOk, "c16:setup", "init failed");
+    SIM_CHECK(o.code->init(env_of(s)) == Error::kOk, "c16:setup", "init failed");
     BaseEmitter& e = o.emitter(s.target, kCompilerPhys);
     RoundSpec fs = s; fs.logger = !s.logger;
     setup_emitter(*o.code, e, fs, &o.logger, &o.eh);
@@ -492,7 +501,7 @@ void execute_funcs(const Plan& plan) {
     sim::begin_op(Op(), n + 1);
     apply_knobs(k2, plan.seed + 99);
     Objects o(0);
-    SIM_CHECK(o.code->init(Environment(gen::arch_of(s.target))) == Error::kOk, "c16:setup", "init failed");
+    SIM_CHECK(o.code->init(env_of(s)) == Error::kOk, "c16:setup", "init failed");
     x86::Compiler& cc = o.xc;
     cc.set_error_handler(&o.eh);
     SIM_CHECK(o.code->attach(&cc) == Error::kOk, "c16:setup", "attach failed");
@@ -537,6 +546,7 @@ Plan generate_rounds_with(uint64_t seed, bool thorough, bool faults) {
     if (r.chance(1, 3)) f |= uint64_t(1) << 22;                // Builder: a raw instruction node without operands
     if (r.chance(1, 2)) f |= uint64_t(1) << 21;                // the logger is attached to the holder
     if (r.chance(1, 2)) f |= uint64_t(1) << 20;                // Compiler: the register allocator annotates the code (visible in the log)
+    if (r.chance(1, 3)) f |= uint64_t(1) << 24;                // the environment's platform is Windows (another calling convention behind the same ids)
     op.a[3] = int64_t(f);
     if (faults && r.chance(1, 3)) {
       op.faults.push_back(sim::Fault{sim::kFaultArena, uint32_t(r.below(r.chance(1, 2) ? 40 : 400)), 0});
